@@ -66,7 +66,6 @@ class Context_normalize(Contract):
             'value': sc_eq(r._real._s, r._real._exp, r._real._c, x._real._s, x._real._exp, x._real._c),
             'sign': r._real._s == x._real._s,
             'c': r._real._c == norm_c(self, x._real._s, x._real._exp, x._real._c),
-            'ctx': same_obj(r._ctx, self),
         }
 
     def raises(self, x):
@@ -177,6 +176,8 @@ class core_modf(Contract):
 class core_frexp(Contract):
     target = 'fpy2.libraries.core:frexp'
     params = {'x': 'Float', 'ctx': 'Context'}
+    # floats.py binds the name `Context` to None at run time (import under TYPE_CHECKING): give the field its real type
+    overrides = {'x._ctx': 'Context | None'}
     returns = 'tuple[Float, Float]'
     properties = ['C20']
     note = ('for every context (abstract Context.round / Context.normalize); m * 2^e == x with 1 <= |m| < 2; '
